@@ -1,3 +1,96 @@
-"""C14 - W-WIRE (worlds/wire.py)."""
+"""C14 - message streams are fragmentation-proof and gated by the handshake (world W-WIRE, worlds/wire.py).
 
-PROPS = {}
+Batches.  The first one is fault-free (whole writes, no delay, no short read, valid handshakes); every other one injects
+the property's faults: chunk boundaries, coalescing, short reads, invalid handshake inputs.
+
+Two batches are marked `defect`: on the unchanged tree they reproduce two genuine contradictions of the statement
+(see /verif/proposed_fixes/C14-*.diff).  Every other batch is steered clear of exactly those two situations, so that all
+other clauses stay checkable:
+  * steering 1 (cfg after_close=False): a message that makes the server close the connection (farm: status, stale
+    register, unexpected type; database: everything but acquire/dbcopy) is always the LAST message of a generated sequence;
+  * steering 2 (cfg steer_client_hs=True): while the *real client* runs security.connect, the server's challenge is
+    written in one piece and the client's recv calls are not shortened (everything else on those connections is).
+Set VERIF_C14_SKIP_DEFECT_BATCHES=1 to leave the two defect batches out (used for the mutant self-test as long as the
+fixes are not in the tree: otherwise every mutant is "caught" by the defects of the base tree).
+"""
+
+import os
+
+WIRE_COMPONENTS = {
+    'real': ['dawgie.pl.farm.Hand (dataReceived, _process, _reg, do, notify, sendall) + Foreman',
+             'dawgie.db.shelve.comms.Worker (dataReceived, _send) + DBSerializer.buildProtocol',
+             'dawgie.db.shelve.comms.Connector.__do, comms.acquire, comms.release',
+             'dawgie.pl.logger.LogSink + LogSinkFactory.buildProtocol + TwistedHandler (logging.handlers.SocketHandler)',
+             'dawgie.security.TwistedWrapper (phases 1-6, process), security.connect / _send / _recv (legacy branch)',
+             'dawgie.pl.message.send / receive / dumps / loads', 'pickle, struct, twisted Protocol/Factory'],
+    'stub': ['TCP: sim.core.SimConn on the simulated reactor (batches whole, net, client*, gpg) or a fake transport with Twisted\'s '
+             'semantics - nothing is delivered after loseConnection - for the direct-drive enumerations (batches enum*, handshake, long)',
+             'client sockets: sim.core.SimSocket subclass bound into dawgie.security.socket (short reads are chooser decisions)',
+             'Hand._res (scheduler behind a reply)', 'comms.Worker.do body (request recorded at entry; deterministic answer through the real _send)',
+             'log sink "actual" handler (recorder); LogSinkFactory.__init__ not run (opens a rotating file)',
+             'context.fsm (constant is_pipeline_active)', 'security._PGP = FakePGP (calibrated against gpg in batch gpg-calibration)',
+             'security.random (nonce from the chooser), clock (sim.boot.SimDateTime)',
+             'TLS itself: "TLS mode" = security.use_tls() true, so no TwistedWrapper; the in-memory transport carries the bytes'],
+}
+
+WIRE_RULE = ('one run = one generated message sequence (1-6 messages of the channel\'s real types, payloads 0 B-70 kB) on one channel in TLS '
+             'or legacy mode, delivered to fresh protocol instances under a set of chunkings (enum: every 1- and 2-cut; handshake: 72 '
+             'input combinations x cuts; long/net/client: chooser-chosen) and compared with whole-message delivery; non-trivial = at '
+             'least one delivery was cut or coalesced differently from whole-message delivery (batch "whole": at least one message '
+             'delivered) and at least one message reached the application; distinct = distinct event-log digest (the digest folds in the '
+             'generated sequence, the number of deliveries and the reference outcome)')
+
+LT = ('fault enumeration for short streams (every split into 2 and into 3 chunks of every generated stream <= 96 B after the handshake; for '
+      'longer ones every single cut plus every pair inside a chooser-chosen 36-byte window and among the frame-edge positions; for the '
+      'handshake all 72 combinations of {valid,tampered,foreign} id signature x {4,wrong} x {valid,tampered,foreign} echo signature x '
+      '{4,wrong} x {echo,wrong echo} delivered whole, a rotating 16 of them under every single cut, one under every pair of cuts), then '
+      'seeded search (chooser-chosen chunkings incl. runs of 1-byte chunks and coalescing across message boundaries, payloads to 70 kB, '
+      'delivery order/delay/coalescing through SimConn, short reads in the real client code); oracle = whole-message delivery of the same '
+      'bytes to a fresh instance + the sent messages as ground truth; exhaustive only over the cut positions of each generated stream, '
+      'not over streams')
+LN = ('trusted: the simulator kernel (sim/), the harness\' own de-framer and FakePGP (its valid/tampered/foreign verdicts and the newline '
+      'behaviour of decrypt are compared with a real gnupg.GPG and two freshly generated RSA keys in batch gpg-calibration); TLS transport '
+      'and the db.post backend are not exercised')
+
+
+def wire(name, runs_q, runs_t, **cfg):
+    return dict(name=name, world='worlds.wire', cfg=cfg, runs=dict(quick=runs_q, thorough=runs_t))
+
+
+BATCHES = [
+    # fault-free: whole-message delivery end to end (scripted clients and the real client code), valid handshakes
+    wire('fault-free (whole messages)', 800, 12000, mode='whole'),
+    # FakePGP against gpg (slow: real key generation; early so that it overlaps with the rest)
+    wire('gpg-calibration', 2, 8, mode='gpg', tls=False),
+    # ---- reproduction batches of the two genuine defects (silent once the proposed fixes are applied) ----
+    wire('defect: message after a closing message', 80, 2000, mode='enum', after_close=True, defect=True),
+    wire('defect: message after a closing message (SimConn)', 200, 4000, mode='net', after_close=True, defect=True),
+    wire('defect: client handshake under fragmentation', 150, 4000, mode='client', tls=False, steer_client_hs=False, defect=True),
+    # ---- fault batches, steered clear of the two defects ----
+    # every 2-chunk and 3-chunk delivery of short streams
+    wire('faults: enum every cut', 400, 12000, mode='enum'),
+    # handshake inputs x cuts
+    wire('faults: handshake inputs x cuts', 140, 6000, mode='hs', tls=False),
+    # seeded chunkings of long streams
+    wire('faults: long streams', 1600, 40000, mode='long'),
+    # SimConn: chunking, delay, coalescing, delivery order are chooser decisions
+    wire('faults: SimConn scripted clients', 1500, 50000, mode='net'),
+    # real client code under short reads
+    wire('faults: real clients, short reads', 1000, 40000, mode='client'),
+]
+if os.environ.get('VERIF_C14_SKIP_DEFECT_BATCHES'):
+    BATCHES = [b for b in BATCHES if not b['cfg'].get('defect')]
+
+PROPS = {
+    'C14': dict(
+        level='fault_enumeration', rule=WIRE_RULE, components=WIRE_COMPONENTS, level_text=LT, level_note=LN,
+        probes=['short_stream_all_pairs', 'long_stream_window_pairs', 'handshake_all_pairs', 'handshake_valid', 'handshake_tail_coalesced',
+                'failed_handshake_with_buffered_tail', 'closing_message', 'payload_ge_64k', 'flow_worker_done', 'flow_status_done',
+                'flow_db_done', 'flow_lock_done', 'flow_log_done', 'gpg_calibrated'],
+        batches=BATCHES,
+        wall=dict(quick=100, thorough=1300),
+        assumptions=['Twisted stops reading as soon as a protocol calls transport.loseConnection (abstract.FileDescriptor): chunks '
+                     'arriving later are never handed to dataReceived', 'legacy handshake decisions are those of a gpg key ring, modelled by '
+                     'FakePGP and calibrated against gpg 2.2 in batch gpg-calibration', 'db.post backend and real TLS are not exercised'],
+    ),
+}
